@@ -704,6 +704,12 @@ func (s *ZkServer) PutRaw(path string, data []byte, owner int64) {
 	s.Nodes[path] = &ZNode{Data: data, Owner: owner, Czxid: s.zxid, Mzxid: s.zxid}
 }
 
+func (s *ZkServer) SetSilent(client string, v bool) {
+	s.Mu.Lock()
+	s.Silent[client] = v
+	s.Mu.Unlock()
+}
+
 func (s *ZkServer) SetUnreachable(client string, v bool) {
 	s.Mu.Lock()
 	s.Unreachable[client] = v
